@@ -919,13 +919,15 @@ Proof.
   rewrite E. reflexivity.
 Qed.
 
-Lemma ci_ok_current : ci_ok change_iter single.
+Lemma ci_ok_pre_fix : ci_ok change_iter_pre_fix single.
 Proof.
-  intros ms F. unfold change_iter. apply change_walk_single.
+  intros ms F. unfold change_iter_pre_fix. apply change_walk_single.
   rewrite Forall_forall in *. intros m Hm. apply F. now apply In_sort_by in Hm.
 Qed.
 Lemma ci_ok_fixed : ci_ok change_iter_fixed (fun _ => True).
 Proof. intros ms _. reflexivity. Qed.
+Lemma ci_ok_current : ci_ok change_iter (fun _ => True).
+Proof. exact ci_ok_fixed. Qed.
 
 (* ---------- one operation preserves "DB = memory on the leaves" ---------- *)
 Definition Inv (sect : path -> bool) (st : state) : Prop :=
